@@ -1,6 +1,7 @@
 (* Quant.v — quantization.go on Coq's primitive binary64 floats (the code's own arithmetic).
    Executable definitions only; evaluated with vm_compute by the correspondence run. *)
 From Coq Require Import ZArith Floats List.
+From Syz Require F32.
 Import ListNotations.
 Open Scope float_scope.
 
@@ -32,79 +33,13 @@ Definition dequantize (bits : Z) (k : Z) : float := of_Z k / of_Z (max_int bits)
 
 (* ---------- bit patterns ---------- *)
 
-(* math.Float64bits *)
-Definition bits64 (x : float) : Z :=
-  match Prim2SF x with
-  | SpecFloat.S754_zero s => if s then 9223372036854775808%Z else 0%Z
-  | SpecFloat.S754_infinity s => ((if s then 9223372036854775808 else 0) + 9218868437227405312)%Z
-  | SpecFloat.S754_nan => 9221120237041090561%Z
-  | SpecFloat.S754_finite s m e =>
-      let sg := (if s then 9223372036854775808 else 0)%Z in
-      if (Z.pos m <? 4503599627370496)%Z then (sg + Z.pos m)%Z       (* subnormal: e = -1074 *)
-      else (sg + (e + 1075) * 4503599627370496 + (Z.pos m - 4503599627370496))%Z
-  end.
-
-(* math.Float64frombits for a non-NaN pattern *)
-Definition of_bits64 (b : Z) : float :=
-  let s := (9223372036854775808 <=? b)%Z in
-  let r := (b mod 9223372036854775808)%Z in
-  let ex := (r / 4503599627370496)%Z in
-  let mn := (r mod 4503599627370496)%Z in
-  let mag :=
-      if (ex =? 2047)%Z then (if (mn =? 0)%Z then infinity else nan)
-      else if (ex =? 0)%Z then
-        (if (mn =? 0)%Z then 0 else SF2Prim (SpecFloat.S754_finite false (Z.to_pos mn) (-1074)))
-      else SF2Prim (SpecFloat.S754_finite false (Z.to_pos (mn + 4503599627370496)) (ex - 1075)) in
-  if s then - mag else mag.
-
-(* float32(x) as bits (math.Float32bits(float32(x))): round to nearest even on 24 bits *)
-Definition bits32 (x : float) : Z :=
-  match Prim2SF x with
-  | SpecFloat.S754_zero s => if s then 2147483648%Z else 0%Z
-  | SpecFloat.S754_infinity s => ((if s then 2147483648 else 0) + 2139095040)%Z
-  | SpecFloat.S754_nan => 2143289344%Z
-  | SpecFloat.S754_finite s m e =>
-      let sg := (if s then 2147483648 else 0)%Z in
-      let mz := Z.pos m in
-      (* value = mz * 2^e, mz has 53 bits when normal (e >= -1074) *)
-      let nb := (Z.log2 mz + 1)%Z in                 (* number of bits of mz *)
-      let top := (nb + e)%Z in                   (* value in [2^(top-1), 2^top) *)
-      (* target exponent of the float32 ulp: max(top - 24, -149) *)
-      let ue := Z.max (top - 24) (-149) in
-      let sh := (ue - e)%Z in                    (* bits to drop (>= 0 for 53-bit mantissas) *)
-      let q := if (sh <=? 0)%Z then Z.shiftl mz (- sh)
-               else
-                 let d := Z.shiftl 1 sh in
-                 let fl := (mz / d)%Z in
-                 let rem := (mz mod d)%Z in
-                 let half := Z.shiftl 1 (sh - 1) in
-                 if (rem <? half)%Z then fl
-                 else if (half <? rem)%Z then (fl + 1)%Z
-                 else (if Z.even fl then fl else fl + 1)%Z in
-      (* q * 2^ue, q <= 2^24 *)
-      if (q =? 0)%Z then sg
-      else
-        let q2 := if (q =? 16777216)%Z then 8388608%Z else q in
-        let ue2 := if (q =? 16777216)%Z then (ue + 1)%Z else ue in
-        if (q2 <? 8388608)%Z then (sg + q2)%Z        (* subnormal float32 (ue = -149) *)
-        else
-          let bexp := (ue2 + 150)%Z in               (* biased exponent: ue2 = exp - 23 - 127 *)
-          if (255 <=? bexp)%Z then (sg + 2139095040)%Z
-          else (sg + bexp * 8388608 + (q2 - 8388608))%Z
-  end.
-
-(* float64(math.Float32frombits(b)) for a non-NaN pattern *)
-Definition of_bits32 (b : Z) : float :=
-  let s := (2147483648 <=? b)%Z in
-  let r := (b mod 2147483648)%Z in
-  let ex := (r / 8388608)%Z in
-  let mn := (r mod 8388608)%Z in
-  let mag :=
-      if (ex =? 255)%Z then (if (mn =? 0)%Z then infinity else nan)
-      else if (ex =? 0)%Z then
-        (if (mn =? 0)%Z then 0 else SF2Prim (SpecFloat.S754_finite false (Z.to_pos mn) (-149)))
-      else SF2Prim (SpecFloat.S754_finite false (Z.to_pos (mn + 8388608)) (ex - 150)) in
-  if s then - mag else mag.
+(* math.Float64bits, math.Float64frombits, math.Float32bits(float32(x)), float64(math.Float32frombits(k)):
+   defined in F32.v on Flocq's IEEE 754 formalisation (conversion = binary_normalize, round to nearest even;
+   bit patterns = Flocq's Bits); NaN is one canonical pattern on each width, as Go produces it *)
+Definition bits64 (x : float) : Z := F32.bits64 x.
+Definition of_bits64 (b : Z) : float := F32.of_bits64 b.
+Definition bits32 (x : float) : Z := F32.bits32 x.
+Definition of_bits32 (b : Z) : float := F32.of_bits32 b.
 
 (* the stored code of one component, and the value read back *)
 Definition store_code (bits : Z) (x : float) : Z :=
